@@ -11,6 +11,15 @@ Three things happen for every case:
              monotonicity).
 Observables the model does not reach (Stimson–Jeffery, 2-D coupling, hydrodynamic equipartition, brentq round trip)
 travel through the protocol as `c20.outside <tag>` and are judged by the oracle only.
+
+Two case kinds run SEQUENCES on the same objects / in the same process, because a result could be remembered or a
+wrapper dropped between calls: `chain` derives a lineage of model objects (`model._motion_blur(T)._alias_model(fs, n)` …,
+any order and length) and evaluates every object of the lineage after all of them exist; `waterseq` sends a list of
+queries to the public `viscosity_of_water` / `density_of_water` in one process, built so that two of (temperature,
+molarity, pressure) repeat while the third changes, scalar and array temperatures mixed, invalid queries in between.
+`setdrag` evaluates one model object before and after `_set_drag(gamma)` (what `calibrate_force(..., drag=…)` does) and
+then through further wrapper steps.  `stimson2` asks the Stimson-Jeffery factors of two beads of DIFFERENT radii, with
+both labellings.
 """
 import cmath
 import math
@@ -18,7 +27,7 @@ from fractions import Fraction
 
 import numpy as np
 
-from common import enc_float, dec_float, errname, close
+from common import enc_float, dec_float, errname, close, InfraError, REPO
 
 PROP = "C20"
 THEOREMS = [
@@ -30,6 +39,12 @@ THEOREMS = [
     "Verif.C20.alias_ge_unaliased",
     "Verif.C20.motion_blur_le",
     "Verif.C20.motion_blur_nonneg",
+    "Verif.C20.wrap_chain_keeps_earlier_steps",
+    "Verif.C20.blur_then_alias_is_sum_of_blurred_shifts",
+    "Verif.C20.alias_then_blur_is_blurred_sum_of_shifts",
+    "Verif.C20.wrap_chain_nonneg",
+    "Verif.C20.wrap_chain_step_order",
+    "Verif.C20.set_drag_keeps_spectrum",
     "Verif.C20.hydro_bulk_pos",
     "Verif.C20.passive_lorentzian_pos",
     "Verif.C20.faxen_gt_one",
@@ -47,30 +62,42 @@ THEOREMS = [
     "Verif.C20.hydro_low_frequency_limit",
     "Verif.C20.hydro_bulk_tends_to_lorentzian",
     "Verif.C20.salt_joins_water",
+    "Verif.C20.bisect_brackets_sign_change",
 ]
 RULE = (
     "corpus (reference points, boundary inputs) + fixed dense log-spaced grids over the property's domain (f 0.1 Hz-100 kHz, "
     "radii 0.1-4 um, distances from the validity limit (R for Faxen/Brenner with a 1e-3 margin, 1.5R for the hydrodynamic "
     "model) to 1e3 R, T over each model's range, molality 0-5.9 mol/kg (molarity 0-5.25 M), 0.1-35 MPa, separations from contact "
     "to 100 diameters) + seeded log-uniform random points with boundary bias (exact range ends, f=0, R/h=1 for Faxen, l=1.5R, "
-    "bead gap down to 1e-6 R; touching beads only as the F9 corpus inputs) + a "
+    "bead gap down to 1e-6 R; touching beads only as the F9 corpus inputs) + sequences: chains of 1-3 motion-blur / aliasing "
+    "steps in every order on one model object (exposure = 1/sample rate and f at Nyquist as boundaries), every object of the "
+    "lineage evaluated twice; lists of 3-10 public viscosity/density queries in one process drawn from small pools of "
+    "temperatures, molarities (0-5 M) and pressures (None, 0.1, 0.101325, 35 MPa, random) so that two coordinates repeat while "
+    "the third changes, in both orders, scalar and array temperatures, with invalid queries in between; one model object "
+    "evaluated before and after _set_drag(k * 3 pi eta d), k = 1 or 0.2-5, then through 0-2 wrapper steps (every option "
+    "combination, hydrodynamic models near a surface included); Stimson-Jeffery factors for unequal radii 0.1-4 um (ratio up to "
+    "40) with both labellings, gap >= 2e-4 of the summed radii (random: mostly >= 2e-3) to 1e4 summed radii + a "
     "malformed stream (PassiveCalibrationModel arguments, temperatures/pressures/molalities outside the validity ranges, "
     "overlapping beads) whose only oracle is 'the documented error, never data'. Non-trivial: the case evaluates a formula "
     "inside its validity domain (not an error case) and, for wall/coupling corrections, at R/h or R/d >= 1e-3 (where the "
-    "correction differs from 1 by more than rounding), for spectra at f > 0."
+    "correction differs from 1 by more than rounding), for spectra at f > 0; a chain has at least one step, a query "
+    "sequence at least two valid queries."
 )
 TRUSTED = [
     "RealLike formulas are proved at R and executed at Float; rounding is not modelled, the comparison tolerance "
     "(rel 1e-9; complex drag: 1e-9 of the modulus) absorbs it",
     "C pow / numpy power for real exponents (RPow.rpow = Float.pow at Float, Real.rpow at R)",
     "np.sinc semantics (y = pi*where(x==0, 1e-20, x); sin(y)/y) are mirrored by the model and self-tested by the c20.sinc op",
-    "scipy.optimize.brentq (molarity -> molality) is not modelled: the model takes the molality; the round trip is explored",
+    "scipy.optimize.brentq (molarity -> molality) is not transcribed: where the model is asked a public-API question (c20.water) it brackets the root of the same residual on [0, 6] by 100 bisections (theorem bisect_brackets_sign_change); elsewhere it takes the molality; the round trip is explored",
 ]
 ASSUMPTIONS = [
     "np.sqrt of the complex number r+0i is the principal root: real for r >= 0, +i sqrt(-r) for r < 0 (negative frequencies are reached through aliasing only); the hydrodynamic theorems are stated for f >= 0",
     "Brenner factor: distances h >= R(1+1e-3) in generated cases (the denominator vanishes at h = R; cancellation amplifies rounding by 1/(1-R/h))",
     "bead-bead separations d >= 2R(1+1e-6) in generated cases (closer: open finding F9, corpus only)",
     "molality <= 5.9 mol/kg (5.25 M) in generated cases: at the model's edge m = 6 the brentq round trip lands a rounding error outside the validity check",
+    "public water functions (waterseq): molarity <= 5 M for T <= 90 C and <= 4.7 M above (molality stays below ~5.8 mol/kg, away from the validity edge), viscosity_of_water(T, 0.0) without a pressure is not generated (0.0 is falsy: the code answers with the Huber formula), molarity None is only generated without a pressure",
+    "after _set_drag the oracle accepts the published spectrum with either bulk drag coefficient (the one the model was built with, which is what the code and the model keep, or the transferred one): the property does not say which; the distance to the surface, radius and densities must be the model's",
+    "Stimson-Jeffery factors for unequal radii: judged by the oracle only (bounds, label-swap symmetry to 1e-8, agreement with the method-of-reflections expansion 1 - 3/2 b/d + 9/4 ab/d^2 to 5 (max(a,b)/d)^3 for max(a,b)/d <= 0.2, the equal-sphere series when the radii coincide)",
     "Stimson-Jeffery series, 2-D coupling, equipartition of the hydrodynamic spectrum, monotonicity of the salt models: explored by the oracle only (no theorem)",
 ]
 
@@ -130,10 +157,87 @@ def call_args(c):
     return [c["f"], c["fc"], c["D"]] + ([] if c["cfg"]["fast_sensor"] else [c["fd"], c["alpha"]])
 
 
+_FRESH = None
+_FRESH_CACHE = {}
+_FRESH_PENDING = []
+
+
+def _fresh_server():
+    """the pristine-process server of harness/c20_fresh.py (started once, stopped with the check)"""
+    global _FRESH
+    if _FRESH is not None and _FRESH.poll() is not None and _FRESH_PENDING:
+        raise InfraError("C20: the fresh-process server died while working through the sequences of this run")
+    if _FRESH is None or _FRESH.poll() is not None:
+        import atexit
+        import os
+        import subprocess
+        import sys
+
+        helper = os.path.join(os.path.dirname(os.path.abspath(__file__)), "c20_fresh.py")
+        _FRESH = subprocess.Popen([sys.executable, helper, REPO], stdin=subprocess.PIPE, stdout=subprocess.PIPE, text=True)
+        atexit.register(_stop_fresh_server)
+    return _FRESH
+
+
+def _stop_fresh_server():
+    global _FRESH
+    if _FRESH is not None:
+        try:
+            _FRESH.stdin.close()
+            _FRESH.wait(timeout=10)
+        except Exception:
+            _FRESH.kill()
+        _FRESH = None
+
+
+def _fresh_request(doc, wait=True):
+    import json
+
+    srv = _fresh_server()
+    try:
+        if doc is not None:
+            srv.stdin.write(json.dumps(doc) + "\n")
+            srv.stdin.flush()
+        line = srv.stdout.readline() if wait else "null"
+    except OSError as e:
+        raise InfraError(f"C20: the fresh-process server died: {e}")
+    if not line:
+        raise InfraError("C20: the fresh-process server died (could pylake be imported from VERIF_REPO?)")
+    return json.loads(line)
+
+
+def fresh_process_prefetch(sequences):
+    """hand all sequences of the run to the server at once; it works through them (each in its own process) while the
+    other cases are evaluated here"""
+    import json
+
+    if sequences and not _FRESH_PENDING:
+        _FRESH_PENDING.extend(json.dumps(q, sort_keys=True) for q in sequences)
+        _fresh_request({"batch": sequences}, wait=False)
+
+
+def fresh_process_answers(queries):
+    """the answers of a process that imported pylake, has answered nothing yet, and is sent `queries` in order"""
+    import json
+
+    key = json.dumps(queries, sort_keys=True)
+    if key not in _FRESH_CACHE and _FRESH_PENDING:
+        for k_, a in zip(_FRESH_PENDING, _fresh_request(None)):
+            _FRESH_CACHE[k_] = a
+        del _FRESH_PENDING[:]
+    ans = _FRESH_CACHE[key] if key in _FRESH_CACHE else _fresh_request(queries)
+    if isinstance(ans, dict):
+        raise InfraError(f"C20: the fresh-process child crashed: {ans.get('crash')}")
+    return list(ans)
+
+
 def impl(case):
-    pm, hy, dm, sw, cm, lk = _mods()
     k = case["op"]
     c = case
+    if k == "waterseq":
+        # one process per sequence: the sequence is all the library has ever been asked, so a failure replays
+        return fresh_process_answers(c["queries"])
+    pm, hy, dm, sw, cm, lk = _mods()
     try:
         if k == "lor":
             return [ef(scalar(pm.passive_power_spectrum_model(np.array([c["f"]]), c["fc"], c["D"])))]
@@ -231,6 +335,36 @@ def impl(case):
             raise ValueError(which)
         if k == "stimsonbad":
             return [ef(dm.coupling_correction_factor_stimson(c["R1"], c["R2"], c["d"])[0])]
+        if k == "stimson2":
+            a = dm.coupling_correction_factor_stimson(c["R1"], c["R2"], c["d"])
+            b = dm.coupling_correction_factor_stimson(c["R2"], c["R1"], c["d"])
+            return [ef(a[0]), ef(a[1]), ef(b[0]), ef(b[1])]
+        if k == "setdrag":
+            model = lk.PassiveCalibrationModel(**c["cfg"])
+            f = np.array([c["f"]])
+            args = call_args(c)[1:]
+            out = [scalar(model(f, *args))]
+            model._set_drag(c["gamma"])  # the same object, now carrying a drag coefficient from elsewhere
+            out.append(scalar(model(f, *args)))
+            cur = model
+            for st in c["steps"]:
+                cur = cur._motion_blur(st[1]) if st[0] == "B" else cur._alias_model(st[1], st[2])
+                out.append(scalar(cur(f, *args)))
+            return [efl(out + [cur.drag_coeff, cur._drag])]
+        if k == "chain":
+            model = lk.PassiveCalibrationModel(**c["cfg"])
+            f = np.array([c["f"]])
+            args = call_args(c)[1:]
+            lineage, first = [model], [scalar(model(f, *args))]
+            for st in c["steps"]:
+                cur = lineage[-1]
+                lineage.append(cur._motion_blur(st[1]) if st[0] == "B" else cur._alias_model(st[1], st[2]))
+                first.append(scalar(lineage[-1](f, *args)))
+            # … and again once the whole lineage exists, youngest first: deriving a model leaves its parent as it was
+            again = [scalar(m(f, *args)) for m in reversed(lineage)][::-1]
+            return [efl(first), efl(again),
+                    efl([scalar(model(f, *args)), model.drag_coeff, model._drag_correction_factor,
+                         scalar(model._to_local_drag_coefficient), scalar(model.viscosity)])]
         if k in ("passive", "passiveblur", "passivealias"):
             model = lk.PassiveCalibrationModel(**c["cfg"])
             f = np.array([c["f"]])
@@ -249,6 +383,29 @@ def impl(case):
 
 def _nops(case):
     return len(ops(case))
+
+
+def _water_query(lk, q):
+    """one call of the public viscosity_of_water / density_of_water, the way a user writes it (each query has its
+    own try: an invalid query must not end the sequence, nor poison what follows)"""
+    try:
+        T = q["T"][0] if q["scalar"] else np.array(q["T"], dtype=float)
+        c, p = q["c"], q["p"]
+        if q["fn"] == "V":
+            r = lk.viscosity_of_water(T) if (c is None and p is None) else (
+                lk.viscosity_of_water(T, c) if p is None else lk.viscosity_of_water(T, c, p))
+        else:
+            r = lk.density_of_water(T, c) if p is None else lk.density_of_water(T, c, p)
+        r = np.atleast_1d(np.asarray(r, dtype=float)).reshape(-1)
+        if r.size != len(q["T"]):
+            return f"shape-mismatch:{r.size}"
+        return efl(r)
+    except Exception as e:
+        return errname(e)
+
+
+def step_tokens(steps):
+    return " ".join(f"B {enc_float(st[1])}" if st[0] == "B" else f"A {enc_float(st[1])} {int(st[2])}" for st in steps)
 
 
 def ops(case):
@@ -302,6 +459,19 @@ def ops(case):
         return [f"c20.saltdens {t} {m} {p}" if c["which"] == "dens" else "c20.outside saltapi"]
     if k == "stimsonbad":
         return ["c20.outside stimson"]
+    if k == "waterseq":
+        return [f"c20.water {q['fn']} [{','.join(E(t) for t in q['T'])}] {eo(q['c'])} {eo(q['p'])}" for q in c["queries"]]
+    if k == "stimson2":
+        return ["c20.outside stimson"] * 4
+    if k == "setdrag":
+        a = c
+        tail = f"{cfg_tokens(c['cfg'])} {E(a['f'])} {E(a['fc'])} {E(a['D'])} {E(a['fd'])} {E(a['alpha'])} {E(a['gamma'])}"
+        return [f"c20.passivesetdrag {tail} {step_tokens(c['steps'])}".rstrip()]
+    if k == "chain":
+        a = c
+        tail = f"{cfg_tokens(c['cfg'])} {E(a['f'])} {E(a['fc'])} {E(a['D'])} {E(a['fd'])} {E(a['alpha'])}"
+        line = f"c20.passivechain {tail} {step_tokens(c['steps'])}".rstrip()
+        return [line, line, f"c20.passive {tail}"]
     if k == "passive":
         a = c
         return [f"c20.passive {cfg_tokens(c['cfg'])} {E(a['f'])} {E(a['fc'])} {E(a['D'])} {E(a['fd'])} {E(a['alpha'])}"]
@@ -518,10 +688,10 @@ def o_passive_error(cfg):
     return None
 
 
-def o_passive_psd(c):
+def o_passive_psd(c, gamma0=None):
     cfg = c["cfg"]
     eta = cfg["viscosity"] if cfg["viscosity"] is not None else o_visc_huber(cfg["temperature"])
-    gamma0 = 3 * PI * eta * cfg["bead_diameter"] * 1e-6
+    gamma0 = 3 * PI * eta * cfg["bead_diameter"] * 1e-6 if gamma0 is None else gamma0
     f = c["f"]
     if cfg["hydrodynamically_correct"]:
         l = None if cfg["distance_to_surface"] is None else cfg["distance_to_surface"] * 1e-6
@@ -537,6 +707,57 @@ def o_passive_psd(c):
         return phys(f) * (1.0 if cfg["fast_sensor"] else o_diode(f, c["fd"], c["alpha"]))
 
     return full, eta, gamma0
+
+
+def o_wrap(step, psd):
+    """published equations of the two wrappers: P_blur(f) = P(f) sinc^2(f T);  P_alias(f) = sum_{|i| <= n} P(f + i fs)"""
+    if step[0] == "B":
+        T = step[1]
+        return lambda x: psd(x) * o_sinc(x * T) ** 2
+    fs, n = step[1], step[2]
+    return lambda x: math.fsum(psd(x + i * fs) for i in range(-n, n + 1))
+
+
+M_NACL = 58.4428
+
+
+def o_molality(c, t, p):
+    """molality [mol/kg water] of a NaCl solution of molarity c [mol/L]: one litre weighs rho/1000 kg of which
+    M c / 1000 kg is salt, so m = 1000 c / (rho(t, m, p) - M c); solved by fixed-point iteration (a contraction:
+    the density moves by ~4 % per mol/kg).  None when there is no solution below the model's limit."""
+    if c == 0:
+        return 0.0
+    m = c
+    for _ in range(500):
+        if not 0 <= m <= 8:
+            return None
+        den = o_salt_dens(t, min(m, 8.0), p) - M_NACL * c
+        if den <= 0:
+            return None
+        new = 1000 * c / den
+        if abs(new - m) <= 1e-15 * max(1.0, m):
+            return new
+        m = new
+    return None
+
+
+def o_water(fn, t, c, p):
+    """what the documentation of viscosity_of_water / density_of_water promises for one temperature:
+    a float, 'ValueError', or None where this oracle does not decide (validity edge)"""
+    salt = fn == "D" or bool(p) or bool(c)
+    if not salt:
+        return o_visc_huber(t) if -20 <= t < 110 else "ValueError"
+    p = 0.101325 if p is None else p
+    if not (20 <= t < 150) or p > 35:
+        return "ValueError"
+    if c < 0 or c > 5.5:  # 5.5 M is beyond 6 mol/kg at every temperature and pressure of the model
+        return "ValueError"
+    m = o_molality(c, t, p)
+    if m is None or m > 6 + 1e-6:
+        return "ValueError"
+    if m > 6 - 1e-6:
+        return None
+    return o_salt_visc(t, m, p) if fn == "V" else o_salt_dens(t, m, p)
 
 
 # ------------------------------------------------------------------ oracle
@@ -563,7 +784,9 @@ def oracle(case, ia):
         if isinstance(v, str) or not (0 < v < 1) or abs(v - 0.64514) > 1e-4:
             return f"coupling-in-unit-interval-at-contact: stimson(R={c['R']!r}, d={c['d']!r}) = {v!r}; the contact value is 0.64514 (in (0,1))"
         return None
-    if k in ("passive", "passiveblur", "passivealias"):
+    if k == "waterseq":
+        return _oracle_waterseq(c, vals, ia)
+    if k in ("passive", "passiveblur", "passivealias", "chain", "setdrag"):
         want = o_passive_error(c["cfg"])
         if want is not None:
             if all(v == want for v in vals):
@@ -781,6 +1004,95 @@ def oracle(case, ia):
         if t < 110 and abs(p - 0.101325) < 1e-12 and not _rel(visc0, o_visc_huber(t), 5e-3):
             return f"salt-joins-water: Kestin water viscosity {visc0!r} vs Huber {o_visc_huber(t)!r} at T = {t!r} (> 0.5 %)"
         return None
+    if k == "stimson2":
+        R1, R2, d = c["R1"], c["R2"], c["d"]
+        a1, a2, b1, b2 = vals
+        for name, v in (("first", a1), ("second", a2), ("first, labels swapped", b1), ("second, labels swapped", b2)):
+            if not 0 < v < 1:
+                return f"coupling-in-unit-interval: stimson(R1={R1!r}, R2={R2!r}, d={d!r}) {name} factor = {v!r}"
+        if abs(a1 - b2) > 1e-8 or abs(a2 - b1) > 1e-8:
+            return (f"stimson-label-symmetry: stimson({R1!r}, {R2!r}, {d!r}) = ({a1!r}, {a2!r}) but with the beads "
+                    f"relabelled ({b1!r}, {b2!r}): the factor of a bead depends on which argument it is")
+        X = max(R1, R2) / d
+        for name, v, own, other in (("first", a1, R1, R2), ("second", a2, R2, R1)):
+            # method of reflections (Smoluchowski; Happel & Brenner 6-3): equal velocities along the line of centres
+            refl = 1 - 1.5 * other / d + 2.25 * own * other / (d * d)
+            if X <= 0.2 and not abs(v - refl) <= 5 * X**3 + 1e-9:
+                return (f"coupling-tends-to-one: stimson({R1!r}, {R2!r}, {d!r}) {name} factor = {v!r}; far-field expansion "
+                        f"1 - 3/2 b/d + 9/4 ab/d^2 = {refl!r} (allowed {5 * X**3!r})")
+            if (R1 + R2) / d <= 0.05 and not abs(v - 1) <= 1.6 * other / d:
+                return f"coupling-tends-to-one: stimson({R1!r}, {R2!r}, {d!r}) {name} factor - 1 = {v - 1!r}, other bead radius / d = {other / d!r}"
+        if R1 == R2 and not abs(a1 - o_stimson_equal(R1, d)) <= 2e-6:
+            return f"stimson-equation: got {a1!r}, Stimson-Jeffery equal-sphere series {o_stimson_equal(R1, d)!r}"
+        return None
+    if k == "setdrag":
+        full, eta, gamma0 = o_passive_psd(c)
+        carried, _, _ = o_passive_psd(c, gamma0=c["gamma"])
+        f, steps, got = c["f"], c["steps"], vals[0]
+        if len(got) != len(steps) + 4:
+            return f"set-drag: {len(got)} values for {len(steps) + 4} observables"
+        if not _rel(got[0], full(f), 1e-8):
+            return f"passive-model-spectrum: got {got[0]!r}, physical spectrum x diode filter = {full(f)!r}"
+        # after the transfer: the published spectrum of THIS bead at THIS distance, for the bulk drag the model was built
+        # with (what the code keeps) or the transferred one — never another geometry
+        ok = []
+        for base in (full, carried):
+            cur = env = base
+            exp, envs = [base(f)], [base(f)]
+            for st in steps:
+                cur = o_wrap(st, cur)
+                env = o_wrap(st, env) if st[0] == "A" else env
+                exp.append(cur(f))
+                envs.append(env(f))
+            ok.append(all(close(v, e, 1e-8, 1e-14 * abs(sc)) for v, e, sc in zip(got[1:], exp, envs)))
+            first = exp if base is full else first
+        if not any(ok):
+            return (f"spectrum-after-drag-transfer: after _set_drag({c['gamma']!r}) the model (and {len(steps)} wrapper steps) gives "
+                    f"{got[1:len(steps) + 2]!r}; the published equations for this bead radius, densities and distance to the surface give "
+                    f"{first!r} (bulk drag as built; neither that nor the transferred drag matches)")
+        if any(not v >= 0 for v in got[:len(steps) + 2]) or not got[1] > 0:
+            return f"passive-model-positive: {got[:len(steps) + 2]!r}"
+        cfg = c["cfg"]
+        l, d = cfg["distance_to_surface"], cfg["bead_diameter"]
+        e_corr = 1.0
+        if not cfg["hydrodynamically_correct"] and l is not None:
+            x = Fraction(d * 1e-6 / 2.0) / Fraction(l * 1e-6)
+            e_corr = float(1 / (o_brenner_den(x) if cfg["axial"] else o_faxen_den(x)))
+        if not _rel(got[-2], c["gamma"], 1e-12) or not _rel(got[-1], c["gamma"] * e_corr, 1e-9 / max(1e-3, 1 - (d / 2) / l if l else 1)):
+            return (f"drag-transfer: after _set_drag({c['gamma']!r}) the model reports drag_coeff {got[-2]!r} and corrected drag "
+                    f"{got[-1]!r} (expected {c['gamma']!r} and gamma x wall correction = {c['gamma'] * e_corr!r})")
+        return None
+    if k == "chain":
+        full, eta, gamma0 = o_passive_psd(c)
+        f, steps = c["f"], c["steps"]
+        cur = env = full
+        exp, envs = [full(f)], [full(f)]
+        for st in steps:
+            cur = o_wrap(st, cur)
+            env = o_wrap(st, env) if st[0] == "A" else env  # the same chain without the blur factors: the scale
+            exp.append(cur(f))
+            envs.append(env(f))
+        for name, got in (("as derived", vals[0]), ("after the whole lineage exists", vals[1])):
+            if len(got) != len(exp):
+                return f"wrapper-chain: {len(got)} values for {len(exp)} objects"
+            for j, (v, e, sc) in enumerate(zip(got, exp, envs)):
+                shape = "->".join(["model"] + [st[0] for st in steps[:j]])
+                if not close(v, e, 1e-8, 1e-14 * abs(sc)):
+                    return (f"wrapper-chain-equation: {shape} at f={f!r} ({name}) = {v!r}, published equations "
+                            f"(P_blur = P sinc^2(fT), P_alias = sum of shifts, composed in this order) = {e!r}")
+                if not v >= 0 or (not v > 0 and not any(st[0] == "B" for st in steps[:j])):
+                    return f"wrapper-chain-positive: {shape} = {v!r}"
+                if j:
+                    prev, st = got[j - 1], steps[j - 1]
+                    if st[0] == "B" and not v <= prev * (1 + 1e-12):
+                        return f"motion-blur-le: {shape} = {v!r} exceeds the spectrum it blurs, {prev!r}"
+                    if st[0] == "A" and not v >= prev * (1 - 1e-12):
+                        return f"alias-ge-unaliased: {shape} = {v!r} is below the spectrum it aliases, {prev!r}"
+        psd, drag, corr, local, visc = vals[2]
+        if not _rel(psd, exp[0], 1e-8) or not _rel(visc, eta, T) or not _rel(drag, gamma0, T):
+            return (f"wrapper-chain-leaves-the-model: after deriving {len(steps)} wrapped copies the model itself gives "
+                    f"{psd!r} (expected {exp[0]!r}), viscosity {visc!r} ({eta!r}), gamma0 {drag!r} ({gamma0!r})")
+        return None
     if k in ("passive", "passiveblur", "passivealias"):
         full, eta, gamma0 = o_passive_psd(c)
         cfg = c["cfg"]
@@ -818,12 +1130,55 @@ def oracle(case, ia):
     return f"harness-bug: no oracle for {k}"
 
 
+def _oracle_waterseq(c, vals, ia):
+    seen = {}  # (fn, T, effective p) -> [(molarity, value)] over the salt-model answers of this sequence
+    for qi, (q, got) in enumerate(zip(c["queries"], vals)):
+        fn, cc, p = q["fn"], q["c"], q["p"]
+        want = [o_water(fn, t, cc, p) for t in q["T"]]
+        what = f"query {qi}: {'viscosity' if fn == 'V' else 'density'}_of_water({q['T'] if not q['scalar'] else q['T'][0]!r}, {cc!r}, {p!r})"
+        if any(w == "ValueError" for w in want):
+            if got != "ValueError":
+                return f"documented-error: {what} should raise ValueError, implementation answered {ia[qi]}"
+            continue
+        if any(w is None for w in want):
+            continue
+        if isinstance(got, str):
+            return f"unexpected-error: {what} inside its validity domain raised {got}"
+        if len(got) != len(want):
+            return f"water-shape: {what} returned {len(got)} values"
+        for t, v, w in zip(q["T"], got, want):
+            if math.isnan(v) or math.isinf(v):
+                return f"not-finite: {what} = {v!r}"
+            if not _rel(v, w, 1e-8 if fn == "V" else 1e-9):
+                return (f"water-equation-at-the-queried-state: {what} = {v!r} at T={t!r}; the published model at THIS "
+                        f"temperature, molarity and pressure gives {w!r} (whatever was asked before)")
+            if not v > 0:
+                return f"salt-positive: {what} = {v!r}"
+            if fn == "D" or bool(p) or bool(cc):
+                seen.setdefault((fn, t, 0.101325 if p is None else p), []).append((cc, v, qi))
+    for (fn, t, p), lst in seen.items():
+        lst.sort()
+        for (c1, v1, q1), (c2, v2, q2) in zip(lst, lst[1:]):
+            if c2 - c1 > 1e-7 and not v2 > v1:
+                name = "viscosity-increases-with-NaCl" if fn == "V" else "density-increases-with-NaCl"
+                return (f"{name}: at T={t!r}, p={p!r}: {c1!r} M -> {v1!r} (query {q1}), {c2!r} M -> {v2!r} (query {q2})")
+    return None
+
+
 def nontrivial(case, ia):
     if case.get("expect") is not None or case["op"] == "contact":
         return False
+    if case["op"] == "waterseq":
+        return sum(1 for a in ia if not isinstance(dec(a), str)) >= 2
     if any(isinstance(dec(a), str) for a in ia):
         return False
     k = case["op"]
+    if k == "chain":
+        return case["f"] > 0 and len(case["steps"]) >= 1
+    if k == "stimson2":
+        return case["R1"] != case["R2"] and max(case["R1"], case["R2"]) / case["d"] >= 1e-3
+    if k == "setdrag":
+        return case["f"] > 0
     if k == "wall":
         return case["R"] / case["h"] >= 1e-3
     if k == "couple":
@@ -858,6 +1213,19 @@ def shrink(case):
                 if key == "m" and "m2" in c:
                     c["m2"] = r + (case["m2"] - case["m"])
                 yield c
+    for key in ("steps", "queries"):  # shorten the sequence
+        if key in case and len(case[key]) > (0 if case["op"] == "setdrag" else 1):
+            for j in range(len(case[key])):
+                c = dict(case)
+                c[key] = case[key][:j] + case[key][j + 1:]
+                yield c
+    if "queries" in case:  # one temperature per query
+        for j, q in enumerate(case["queries"]):
+            if len(q["T"]) > 1:
+                for t in q["T"]:
+                    c = dict(case)
+                    c["queries"] = case["queries"][:j] + [dict(q, T=[t])] + case["queries"][j + 1:]
+                    yield c
     if "cfg" in case:
         for key, v in case["cfg"].items():
             if isinstance(v, float) and v != 0:
@@ -995,6 +1363,52 @@ def corpus():
     yield passive_case("corpus", base_cfg(bead_diameter=1.0, fast_sensor=True), 10.0, 400.0, 0.5)
     yield {"stream": "corpus", "op": "drag", "f": 0.0, "gamma0": 1.0, "rho": 997.0, "R": 0.5e-6, "l": 0.75e-6}
     yield {"stream": "corpus", "op": "drag", "f": 0.0, "gamma0": 1.0, "rho": 997.0, "R": 0.5e-6, "l": None}
+    # the camera chain (exposure = 1 / sample rate, f up to Nyquist): blur, then aliasing; and the two steps the other way round
+    cam = base_cfg(bead_diameter=1.0, fast_sensor=True)
+    for f in (1.0, 125.0, 249.0, 250.0):
+        yield passive_case("corpus", cam, f, 120.0, 0.5, op="chain", steps=[["B", 1 / 500.0], ["A", 500.0, 20]])
+    yield passive_case("corpus", cam, 249.0, 120.0, 0.5, op="chain", steps=[["A", 500.0, 20], ["B", 1 / 500.0]])
+    yield passive_case("corpus", base_cfg(bead_diameter=4.4, hydrodynamically_correct=True, viscosity=1.002e-3), 200.0, 120.0, 0.5,
+                       op="chain", steps=[["B", 1 / 500.0], ["A", 500.0, 20], ["B", 1e-4]])
+    # a bulk drag coefficient carried over to a hydrodynamically correct model near a surface (calibrate_force(..., drag=…))
+    near = base_cfg(bead_diameter=1.0, hydrodynamically_correct=True, distance_to_surface=0.8, viscosity=1.002e-3, fast_sensor=True)
+    yield setdrag_case("corpus", near, 10.0, 4000.0, 0.5, 1.0, [])
+    yield setdrag_case("corpus", near, 3000.0, 4000.0, 0.5, 1.3, [["B", 1e-4], ["A", 78125.0, 3]])
+    # two beads of different size, both ways round
+    yield {"stream": "corpus", "op": "stimson2", "R1": 0.5, "R2": 2.0, "d": 2.625}
+    yield {"stream": "corpus", "op": "stimson2", "R1": 0.1, "R2": 4.0, "d": 4.1 * 1.0002}
+    yield {"stream": "corpus", "op": "stimson2", "R1": 4.0, "R2": 0.1, "d": 820.0}
+    # a buffer series looked up at the two ends of the pressure range, one after the other, in one process
+    yield water_sequence("corpus", [("V", 20.0, 3.0, None), ("D", 20.0, 3.0, None), ("V", 20.0, 3.0, 35.0), ("D", 20.0, 3.0, 35.0),
+                                    ("V", 20.0, 3.01, 35.0), ("D", 20.0, 3.01, 35.0), ("V", 20.0, 3.0, 0.1), ("D", 20.0, 3.0, 0.1)])
+    yield water_sequence("corpus", [("V", [25.0, 60.0], 1.0, 35.0), ("V", 25.0, 1.0, 0.101325), ("V", 60.0, 1.0, 0.101325),
+                                    ("D", [60.0, 25.0], 1.0, None), ("V", 25.0, None, None), ("V", 10.0, 1.0, 1.0), ("D", 25.0, 1.0, 35.0)])
+
+
+def natural_drag(cfg):
+    """3 pi eta d: the bulk Stokes drag coefficient of the model's own bead"""
+    eta = cfg["viscosity"] if cfg["viscosity"] is not None else o_visc_huber(cfg["temperature"])
+    return 3 * PI * eta * cfg["bead_diameter"] * 1e-6
+
+
+def setdrag_case(stream, cfg, f, fc, D, k, steps, **kw):
+    """the model evaluated, given the drag coefficient k * (its own Stokes drag), evaluated again, then wrapped"""
+    return passive_case(stream, cfg, f, fc, D, op="setdrag", gamma=float(k * natural_drag(cfg)), steps=steps, **kw)
+
+
+def water_sequence(stream, queries, **kw):
+    """queries: (fn, T | [T…], molarity | None, pressure | None) in the order they are sent"""
+    qs = []
+    for fn, T, c, p in queries:
+        arr = isinstance(T, (list, tuple))
+        qs.append({"fn": fn, "T": [float(t) for t in T] if arr else [float(T)], "scalar": not arr,
+                   "c": None if c is None else float(c), "p": None if p is None else float(p)})
+    c = {"stream": stream, "op": "waterseq", "queries": qs}
+    c.update(kw)
+    return c
+
+
+CHAIN_SHAPES = ["B", "A", "BA", "AB", "BB", "AA", "BAB", "ABA", "BBA", "AAB"]
 
 
 def wall_case(stream, R, ratio, step, **kw):
@@ -1065,6 +1479,7 @@ def grid(tier):
             for p in ps:
                 yield {"stream": "grid", "op": "salt", "T": T, "m": m, "p": p, "m2": m + 0.1, "T2": min(149.99, T + 0.4)}
     # PassiveCalibrationModel: option matrix x a few frequencies
+    ncfg = 0
     for hyd in (False, True):
         for lr in (None, 1.0, 1.2, 1.5, 4.0):
             for axial in (False, True):
@@ -1082,6 +1497,53 @@ def grid(tier):
                             yield passive_case("grid", cfg, f, 1800.0, 0.37)
                         yield passive_case("grid", cfg, 1200.0, 1800.0, 0.37, op="passiveblur", T=2e-4)
                         yield passive_case("grid", cfg, 1200.0, 1800.0, 0.37, op="passivealias", fs=78125.0, n=10)
+                        # wrappers composed on the model object, every order; slow (camera) and fast sampling
+                        ncfg += 1
+                        for j in range(2 if q else len(CHAIN_SHAPES)):
+                            shape = CHAIN_SHAPES[(ncfg * 2 + j) % len(CHAIN_SHAPES)]
+                            slow = bool((ncfg + j) % 2)
+                            fs_, n_ = (3000.0, 6) if slow else (78125.0, 3)
+                            steps = [["B", (1 / fs_ if i % 2 == 0 else 0.37 / fs_)] if ch == "B" else ["A", fs_ * (1 + i), n_]
+                                     for i, ch in enumerate(shape)]
+                            yield passive_case("grid", cfg, 0.41 * fs_, 1800.0 if not slow else 700.0, 0.37, op="chain", steps=steps)
+                        # the same object before and after a drag coefficient is carried over, then wrapped
+                        k_ = (1.0, 0.6, 2.5)[ncfg % 3]
+                        steps = ([], [["B", 2e-4]], [["B", 1 / 3000.0], ["A", 3000.0, 6]], [["A", 78125.0, 3]])[(ncfg // 3) % 4]
+                        for f in ([3.0, 1200.0] if q else logspace(0.1, 1e5, 7)):
+                            yield setdrag_case("grid", cfg, f, 1800.0, 0.37, k_, steps)
+    # Stimson-Jeffery for two beads of different size (and the same pair the other way round)
+    sizes = [0.1, 0.5, 2.2, 4.0] if q else [0.1, 0.25, 0.5, 1.0, 2.2, 4.0]
+    for R1 in sizes:
+        for R2 in sizes:
+            for sr in ([1.0005, 1.05, 2.0, 30.0, 200.0] if q else [1.0002, 1.001, 1.01, 1.05, 1.3, 2.0, 5.0, 30.0, 100.0, 200.0, 1e4]):
+                yield {"stream": "grid", "op": "stimson2", "R1": R1, "R2": R2, "d": (R1 + R2) * sr}
+    # the public water functions asked several things in a row: walk one coordinate, keep the other two
+    Ts = [20.0, 52.4, 100.0, 149.5] if q else linspace(20.0, 149.5, 9)
+    cs = [0.0, 1e-6, 0.5, 3.0, 4.7] if q else [0.0, 1e-9, 1e-6, 1e-3, 0.1, 0.5, 1.0, 2.0, 3.0, 4.0, 4.7]
+    ps = [None, 0.1, 35.0] if q else [None, 0.1, 0.101325, 1.0, 10.0, 35.0]
+    flip = 0
+    for T in Ts:
+        for c in cs:
+            flip += 1
+            order = ps if flip % 2 else ps[::-1]
+            qs = [(fn, T, c, p) for p in order for fn in ("V", "D") if not (fn == "V" and p is None and c == 0.0)]
+            qs += [(fn, T, c + 0.01, order[-1]) for fn in ("V", "D")]  # a slightly stronger solution at the last pressure
+            yield water_sequence("grid", qs)
+    for c in cs:
+        for p in ps:
+            flip += 1
+            order = Ts if flip % 2 else Ts[::-1]
+            if c == 0.0 and p is None:
+                continue
+            qs = [(("V", "D")[(i + flip) % 2], T, c, p) for i, T in enumerate(order)]
+            qs += [("V", list(order), c, p), ("D", list(order[::-1]), c, p)]  # the same temperatures as one array
+            yield water_sequence("grid", qs)
+    for T in Ts:
+        for p in ps:
+            flip += 1
+            order = cs if flip % 2 else cs[::-1]
+            yield water_sequence("grid", [(fn, T, c, p) for c in order for fn in (("V", "D") if flip % 3 else ("D", "V"))
+                                          if not (fn == "V" and p is None and c == 0.0)])
 
 
 def random_cases(tier, rng):
@@ -1091,7 +1553,8 @@ def random_cases(tier, rng):
     for i in range(N):
         s = r.fork(i)
         kind = s.choice(["lor", "diode", "blur", "alias", "drivenlor", "drag", "drag", "hydro", "hydro", "wall", "wall", "couple", "visc",
-                         "salt", "passive", "passive", "passiveblur", "passivealias", "hydrolimit"] + ([] if q and i % 8 else ["equip"]))
+                         "salt", "passive", "passive", "passiveblur", "passivealias", "hydrolimit", "chain", "chain", "waterseq", "setdrag", "stimson2"]
+                        + ([] if q and i % 8 else ["equip"]))
         f = s.choice([s.loguniform(0.1, 1e5)] * 6 + [0.1, 1e5])
         fc = s.loguniform(5.0, 3e4)
         D = s.loguniform(1e-4, 1e2)
@@ -1134,6 +1597,15 @@ def random_cases(tier, rng):
         elif kind == "visc":
             T = s.choice([-20.0, s.uniform(-20.0, 109.9), s.uniform(-20.0, 109.9), s.uniform(5.0, 90.0), 109.9])
             yield {**base, "op": "visc", "T": T, "T2": min(109.99, T + s.loguniform(1e-5, 30.0))}
+        elif kind == "waterseq":
+            yield random_water_sequence(s, i)
+        elif kind == "stimson2":
+            R2 = s.choice([s.loguniform(0.1e-6, 4e-6)] * 5 + [0.1e-6, 4e-6, R])
+            # the series needs ~1/sqrt(gap) summands: gaps below 2e-3 of the summed radii are left to the corpus and the grid
+            sr = s.choice([1.0 + s.loguniform(2e-3, 0.1), s.loguniform(1.01, 100.0), s.loguniform(1.01, 100.0), s.loguniform(1.01, 100.0),
+                           s.loguniform(100.0, 1e4)] + ([1.0005] if i % 10 == 0 else []))
+            Ra, Rb = R * 1e6, R2 * 1e6
+            yield {**base, "op": "stimson2", "R1": Ra, "R2": Rb, "d": (Ra + Rb) * sr}
         elif kind == "salt":
             T = s.choice([20.0, s.uniform(20.0, 149.9), s.uniform(20.0, 149.9), s.uniform(20.0, 40.0)])
             m = s.choice([0.0, 5.9, s.uniform(0.0, 5.9), s.uniform(0.0, 5.9), s.loguniform(1e-9, 1.0)])
@@ -1153,7 +1625,54 @@ def random_cases(tier, rng):
                 extra = {"T": s.choice([1 / 78125.0, s.loguniform(1e-6, 1e-2)])}
             if kind == "passivealias":
                 extra = {"fs": s.choice([78125.0, s.loguniform(1e3, 1e6)]), "n": s.choice([0, 1, 10, s.randint(0, 30)])}
+            if kind == "setdrag":
+                steps = s.choice([[], [], [["B", s.loguniform(1e-6, 1e-2)]], [["A", s.choice([78125.0, s.loguniform(1e3, 1e6)]), s.choice([0, 1, 3, 10])]],
+                                  [["B", 1 / 500.0], ["A", 500.0, s.randint(0, 20)]]])
+                yield setdrag_case("random", cfg, f, fc, D, s.choice([1.0, s.loguniform(0.2, 5.0), s.loguniform(0.2, 5.0)]), steps,
+                                   fd=s.loguniform(1e3, 4e4), alpha=s.random(), subseed=i)
+                continue
+            if kind == "chain":
+                fs_ = s.choice([78125.0, 500.0, s.loguniform(1e2, 1e6), s.loguniform(1e2, 1e4)])
+                shape = s.choice(CHAIN_SHAPES + ["BA", "BA", "AB"])
+                steps, cost = [], 1
+                for ch in shape:
+                    if ch == "B":
+                        steps.append(["B", s.choice([1 / fs_, 1 / fs_, s.loguniform(1e-6, 1e-2), s.uniform(0.05, 1.0) / fs_])])
+                    else:
+                        n_ = s.choice([0, 1, 2, 10, 20, s.randint(0, 25)])
+                        if cost * (2 * n_ + 1) > 1500:
+                            n_ = 1
+                        cost *= 2 * n_ + 1
+                        steps.append(["A", s.choice([fs_, fs_, s.loguniform(1e2, 1e6)]), n_])
+                extra = {"steps": steps}
+                # a sampled spectrum lives below Nyquist
+                f = s.choice([f, s.uniform(0.0, 0.5) * fs_, s.uniform(0.0, 0.5) * fs_, 0.5 * fs_, max(0.1, 0.5 * fs_ - 1.0)])
             yield passive_case("random", cfg, f, fc, D, fd=s.loguniform(1e3, 4e4), alpha=s.random(), op=kind, subseed=i, **extra)
+
+
+def random_water_sequence(s, i):
+    """3-10 queries drawn from small pools of temperatures, molarities and pressures, so that most queries repeat two
+    coordinates of an earlier one and change the third; now and then a query outside the validity range"""
+    hot = s.chance(0.3)
+    t_hi = 149.9 if hot else 90.0
+    c_hi = 4.7 if hot else 5.0
+    t0 = s.choice([20.0, s.uniform(20.0, t_hi), s.uniform(20.0, min(t_hi, 40.0))])
+    Tpool = [t0] + [min(t_hi, t0 + s.loguniform(1e-3, 60.0)) for _ in range(s.randint(0, 2))]
+    c0 = s.choice([s.uniform(0.0, c_hi), s.uniform(0.0, c_hi), s.loguniform(1e-9, 1.0), c_hi, 0.0])
+    cpool = [c0] + [min(c_hi, c0 + s.loguniform(1e-4, 1.0)) for _ in range(s.randint(0, 2))]
+    ppool = s.sample([None, 0.101325, 0.1, 35.0, s.loguniform(0.1, 35.0), s.loguniform(0.1, 35.0)], s.randint(2, 3))
+    qs = []
+    for _ in range(s.randint(3, 10)):
+        fn = s.choice(["V", "D"])
+        T = s.choice(Tpool) if s.chance(0.8) else [s.choice(Tpool) for _ in range(s.randint(1, 3))]
+        c, p = s.choice(cpool), s.choice(ppool)
+        if s.chance(0.06):  # outside the validity range: the documented error, and nothing of it may stick
+            T, c, p = s.choice([(s.uniform(-10.0, 19.99), c, p or 1.0), (s.uniform(150.0, 200.0), c, p or 1.0), (T, c, s.uniform(35.01, 80.0)),
+                                (T, s.uniform(5.6, 9.0), p)])
+        if fn == "V" and p is None and c == 0.0:
+            c = None  # plain water: the Huber formula (its range is -20..110)
+        qs.append((fn, T, c, p))
+    return water_sequence("random", qs, subseed=i)
 
 
 def load_corpus_files():
@@ -1169,7 +1688,7 @@ def load_corpus_files():
         yield c
 
 
-def cases(tier, rng):
+def _all_cases(tier, rng):
     yield from load_corpus_files()
     yield from corpus()
     if tier != "quick":
@@ -1180,14 +1699,50 @@ def cases(tier, rng):
     yield from random_cases(tier, rng)
 
 
+def cases(tier, rng):
+    _fresh_server()  # imports pylake while the cases are being generated
+    sequences = []
+    for c in _all_cases(tier, rng):
+        if c["op"] == "waterseq":
+            sequences.append(c["queries"])
+        yield c
+    fresh_process_prefetch(sequences)
+
+
 def extra_coverage(results):
     kinds, errs, streams_kind = {}, {}, {}
     outside = 0
     near_wall = {"R/h>0.9": 0, "0.5-0.9": 0, "0.1-0.5": 0, "<0.1": 0}
     hydro_branch = {"bulk": 0, "surface": 0}
     fdec = {}
+    chains, setdrag, unequal = {}, {}, {}
+    wseq = {"sequences": 0, "queries": 0, "array_queries": 0, "invalid_queries": 0, "same_T_c_new_p": 0, "same_c_p_new_T": 0, "same_T_p_new_c": 0}
     for r in results:
         c = r["case"]
+        if c["op"] == "chain":
+            sh = "".join(st[0] for st in c["steps"])
+            chains[sh] = chains.get(sh, 0) + 1
+        if c["op"] == "setdrag":
+            cf = c["cfg"]
+            key = ("hydro" if cf["hydrodynamically_correct"] else "lorentzian") + ("+surface" if cf["distance_to_surface"] is not None else "+bulk")
+            setdrag[key] = setdrag.get(key, 0) + 1
+        if c["op"] == "stimson2":
+            ratio = max(c["R1"], c["R2"]) / min(c["R1"], c["R2"])
+            key = "equal" if ratio == 1 else "ratio<2" if ratio < 2 else "ratio 2-10" if ratio < 10 else "ratio>=10"
+            unequal[key] = unequal.get(key, 0) + 1
+        if c["op"] == "waterseq":
+            wseq["sequences"] += 1
+            hist = []
+            for qd, a in zip(c["queries"], r["impl"]):
+                wseq["queries"] += 1
+                wseq["array_queries"] += 0 if qd["scalar"] else 1
+                wseq["invalid_queries"] += 1 if a.endswith("Error") else 0
+                for t in qd["T"]:
+                    cur = (t, qd["c"] or 0.0, qd["p"] or 0.101325)
+                    for name, (x, y, z) in (("same_T_c_new_p", (0, 1, 2)), ("same_c_p_new_T", (1, 2, 0)), ("same_T_p_new_c", (0, 2, 1))):
+                        if any(h[x] == cur[x] and h[y] == cur[y] and h[z] != cur[z] for h in hist):
+                            wseq[name] += 1
+                    hist.append(cur)
         kinds[c["op"]] = kinds.get(c["op"], 0) + 1
         for a in r["impl"]:
             if a.endswith("Error"):
@@ -1202,6 +1757,6 @@ def extra_coverage(results):
             d = int(math.floor(math.log10(c["f"])))
             fdec[str(d)] = fdec.get(str(d), 0) + 1
     return {"case_kinds": kinds, "error_kinds": errs, "explore_only_observables": outside, "wall_ratio_histogram": near_wall,
-            "hydro_branches": hydro_branch, "frequency_decades": fdec, "tolerance": "rel 1e-9 model vs implementation (complex drag: 1e-9 of the modulus)",
+            "hydro_branches": hydro_branch, "frequency_decades": fdec, "wrapper_chain_shapes": chains, "set_drag_models": setdrag, "stimson_radius_ratios": unequal, "water_query_sequences": wseq, "tolerance": "rel 1e-9 model vs implementation (complex drag: 1e-9 of the modulus)",
             "exhaustive": False,
             "exhaustive_note": "continuous domains: fixed dense grids + seeded random points; nothing is enumerated exhaustively"}
